@@ -427,7 +427,8 @@ type vkLKWorld struct {
 	step      int
 	maxWait   int // max number of main callers simultaneously unreturned at a stable point
 	tags      map[int]bool
-	baseline  int
+	base      vkLKSnap
+	wedged    map[int]bool // caller idx -> still waiting after its own Done() closed and the world settled
 	trans     int
 	states    []string
 	occHeldAt map[int]bool // caller idx -> the occupant held the slot when it arrived
@@ -444,11 +445,14 @@ func vkLKNewWorld(sc vkLKScenario, T time.Duration) (*vkLKWorld, error) {
 	if len(sc.Servers) < 1 || len(sc.Servers) > vkLKMaxSrv {
 		return nil, &vkLKHarnessErr{"bad server count"}
 	}
-	w := &vkLKWorld{sc: sc, tags: map[int]bool{}, occHeldAt: map[int]bool{}}
+	w := &vkLKWorld{sc: sc, tags: map[int]bool{}, occHeldAt: map[int]bool{}, wedged: map[int]bool{}}
+	// Goroutines an earlier run left behind (only after that run was reported as a leak) are parked for
+	// good; they are subtracted so the leak can be reproduced on further fresh resolvers.
 	pre := vkLKSnapshot()
-	if pre.world != 0 {
-		return nil, &vkLKHarnessErr{"world goroutines exist before the run: " + pre.sig}
+	if !pre.blocked {
+		return nil, &vkLKHarnessErr{"world goroutines are running before the run: " + pre.sig}
 	}
+	w.base = pre
 	w.r = vkLKNewResolver(vkLKCfg())
 	switch sc.Cfg {
 	case "std":
@@ -511,6 +515,35 @@ func vkLKCallerRun(r *Resolver, c *vkLKCaller, servers *authority.Servers) {
 	c.returned.Store(true)
 }
 
+// snap is a snapshot minus what was already parked before this world existed.
+func (w *vkLKWorld) snap() vkLKSnap {
+	s := vkLKSnapshot()
+	if w.base.world == 0 {
+		return s
+	}
+	s.world -= w.base.world
+	s.exch -= w.base.exch
+	s.lookup -= w.base.lookup
+	rest := append([]string{}, w.base.desc...)
+	var desc []string
+	for _, d := range s.desc {
+		hit := false
+		for i, b := range rest {
+			if b == d {
+				rest = append(rest[:i], rest[i+1:]...)
+				hit = true
+				break
+			}
+		}
+		if !hit {
+			desc = append(desc, d)
+		}
+	}
+	s.desc = desc
+	s.sig = strings.Join(desc, ";")
+	return s
+}
+
 func (w *vkLKWorld) liveCounts() (main, occ int, tag int) {
 	tag = -1
 	w.mu.Lock()
@@ -531,7 +564,7 @@ func (w *vkLKWorld) liveCounts() (main, occ int, tag int) {
 func (w *vkLKWorld) killMain(onlyTag int) {
 	w.mu.Lock()
 	for _, q := range w.parked {
-		if q.srv != vkLKMaxSrv && (onlyTag < 0 || q.tag == onlyTag) {
+		if q.srv != vkLKMaxSrv && (onlyTag < 0 || q.tag == onlyTag) && !q.answered {
 			q.live = false
 		}
 	}
@@ -602,12 +635,12 @@ func (w *vkLKWorld) settle() error {
 			}
 		}
 		if time.Now().After(limit) {
-			s := vkLKSnapshot()
+			s := w.snap()
 			m, o, t := w.liveCounts()
 			return &vkLKHarnessErr{fmt.Sprintf("settle timeout in %s step %d: %s; slots=%d live(main=%d occ=%d tag=%d) goroutines: %s",
 				w.sc, w.step, why, len(w.r.maxConcurrent), m, o, t, s.sig)}
 		}
-		s := vkLKSnapshot()
+		s := w.snap()
 		if !s.blocked {
 			streak, why = 0, "a goroutine is runnable"
 			continue
@@ -745,6 +778,7 @@ func (w *vkLKWorld) exec(ev string) (late bool, err error) {
 	w.step++
 	w.trans++
 	preDL := !w.dlPassed && strings.ContainsRune(w.sc.Budgets, 'S')
+	var doneOf *vkLKCaller
 	switch {
 	case ev == "dl":
 		if d := time.Until(w.deadline); d > 0 {
@@ -759,8 +793,12 @@ func (w *vkLKWorld) exec(ev string) (late bool, err error) {
 				c.killStep = w.step
 			}
 		}
-		if _, _, tag := w.liveCounts(); tag >= 0 && w.budgetOf(tag) == 'S' {
-			w.killMain(tag) // every attempt of a short-budget leader ends with its socket deadline
+		// every attempt of a short-budget leader ends with its socket deadline (a follower with a long
+		// budget may already have re-entered and sent its own queries: those stay)
+		for i, c := range w.callers {
+			if c.budget == 'S' {
+				w.killMain(i)
+			}
 		}
 	case strings.HasPrefix(ev, "rep"):
 		j := int(ev[3] - '0')
@@ -790,22 +828,24 @@ func (w *vkLKWorld) exec(ev string) (late bool, err error) {
 		if w.dlPassed && c.budget == 'S' {
 			cause = context.DeadlineExceeded
 		}
-		if _, _, tag := w.liveCounts(); tag == i {
-			w.killMain(i)
-		}
+		w.killMain(i) // the lookup it leads (if any) ends with it
 		c.ctx.fire(cause)
+		doneOf = c
 	default:
 		return false, &vkLKHarnessErr{"unknown event " + ev}
 	}
 	if err := w.settle(); err != nil {
 		return false, err
 	}
+	if doneOf != nil && !doneOf.returned.Load() {
+		w.wedged[doneOf.idx] = true // nothing can move any more and the caller whose context ended is still inside
+	}
 	if preDL && ev != "dl" && !time.Now().Before(w.deadline.Add(-2*time.Millisecond)) {
 		return true, nil
 	}
 	w.states = append(w.states, w.digest())
 	if vkLKDebug {
-		sn := vkLKSnapshot()
+		sn := w.snap()
 		fmt.Printf("  step %d %s: t-D=%v slots=%d %s || %s\n", w.step, ev, time.Since(w.deadline).Round(100*time.Microsecond), len(w.r.maxConcurrent), w.digest(), sn.sig)
 	}
 	return false, nil
@@ -858,9 +898,7 @@ func (w *vkLKWorld) drain() (stuckCallers []int, leaks []vkLKLeak, err error) {
 			if c.killStep < 0 {
 				c.killStep = w.step
 			}
-			if _, _, tag := w.liveCounts(); tag == c.idx {
-				w.killMain(c.idx)
-			}
+			w.killMain(c.idx)
 			c.ctx.fire(context.Canceled)
 			if c == w.occ {
 				w.mu.Lock()
@@ -885,8 +923,8 @@ func (w *vkLKWorld) drain() (stuckCallers []int, leaks []vkLKLeak, err error) {
 	var s vkLKSnap
 	same, last := 0, ""
 	for spin := 0; ; spin++ {
-		s = vkLKSnapshot()
-		if s.world == 0 {
+		s = w.snap()
+		if s.world <= 0 {
 			break
 		}
 		if s.blocked && s.sig == last {
@@ -905,6 +943,14 @@ func (w *vkLKWorld) drain() (stuckCallers []int, leaks []vkLKLeak, err error) {
 		} else {
 			time.Sleep(100 * time.Microsecond)
 		}
+	}
+	w.r.circuitBreaker.mu.RLock()
+	nfail := len(w.r.circuitBreaker.failures)
+	w.r.circuitBreaker.mu.RUnlock()
+	if nfail != 0 {
+		// no scripted authority ever fails on its own: a recorded upstream failure means the 10 s socket
+		// timeout fired inside the run, i.e. the harness lost track of an attempt
+		return nil, nil, &vkLKHarnessErr{fmt.Sprintf("the circuit breaker recorded an upstream failure in %s (step %d): the run outlived the upstream socket timeout", w.sc, w.step)}
 	}
 	if len(stuckCallers) == 0 {
 		for _, d := range s.desc {
